@@ -3,6 +3,7 @@ use crate::Cfg;
 
 pub mod c01;
 pub mod c02;
+pub mod c04;
 pub mod c06;
 pub mod c07;
 pub mod c08;
@@ -13,6 +14,7 @@ pub fn run(prop: &str, cfg: &Cfg, rep: &mut Report) -> bool {
     match prop {
         "C01" => c01::run(cfg, rep),
         "C02" => c02::run(cfg, rep),
+        "C04" => c04::run(cfg, rep),
         "C06" => c06::run(cfg, rep),
         "C07" => c07::run(cfg, rep),
         "C08" => c08::run(cfg, rep),
